@@ -204,10 +204,8 @@ def covered_by(prog, d):
             ids |= prog.subtree_ids(d["lst"][k])
         return ids
     if d["form"] == "open":
-        ids = set()
-        for s in prog.subs[d["i"]:]:
-            ids |= prog.subtree_ids(s)
-        return ids
+        # everything the walk enters from that node on (node ids are pre-order)
+        return {x.id for x in prog.nodes() if x.id >= d["node"].id}
     return set()     # dead placement
 
 
@@ -260,10 +258,15 @@ def mk_directive(rng, prog, fired_rules, form=None, marker=None, with_rules=None
         else:
             d["form"], d["dead"] = "dead", "hostile"
     elif form == "open":
-        # falco-ignore-start before a root declaration and no end: the rest of the file
-        i = rng.randrange(len(prog.subs))
-        d.update(form="open", i=i, node=prog.subs[i])
-        d["placements"].append({"node": prog.subs[i], "where": "lead", "text": G.comment(marker, "start", rules, rng)})
+        # falco-ignore-start and no end: the rest of the file - before a root declaration, or before a statement anywhere
+        # inside a subroutine body (then the variables declared before it and the subroutine itself are NOT covered)
+        if rng.random() < 0.5:
+            n = rng.choice(prog.subs)
+        else:
+            n = rng.choice([x for x in prog.nodes() if x.kind in ("simple", "if", "switch")
+                            and not x.text.startswith(("break", "fallthrough"))] or prog.subs)
+        d.update(form="open", node=n)
+        d["placements"].append({"node": n, "where": "lead", "text": G.comment(marker, "start", rules, rng)})
     elif form == "slot":
         # one of the other comment placeholders of docs/parser.md; what it covers follows from where the parser attaches it
         cands = [(n, sl) for n in prog.nodes() for sl in n.slots()]
